@@ -65,6 +65,24 @@ func (o *netOracle) run() []OracleFailure {
 		c := d.Chain
 		self := h.names[c]
 		if !d.OK {
+			// C11: a relay chain that cannot forward must answer with an error
+			// acknowledgement; the code fails the message when the destination is unknown
+			if d.Op == "recv" && d.Pkt != nil && d.Pkt.Relay == self && o.chainIdx(d.Pkt.Dst) < 0 &&
+				strings.Contains(d.Err, "light client not found") {
+				si := o.chainIdx(d.Pkt.Src)
+				committed := false
+				if si >= 0 {
+					for _, q := range o.sent[si] {
+						if q == *d.Pkt {
+							committed = true
+						}
+					}
+				}
+				if committed && o.recvd[c][pktKey{d.Pkt.Src, d.Pkt.Dst, d.Pkt.Seq}] == 0 {
+					o.fail("C11:relay-unknown-destination-no-error-ack",
+						"relay chain does not know the destination: the message fails instead of recording an error acknowledgement, so the source can never refund", d, idx)
+				}
+			}
 			continue
 		}
 		switch d.Op {
